@@ -521,6 +521,32 @@ Example C05_example_chain_linked :
   fst ex_l2 = [[13; 15]].
 Proof. exact ex_link_runs. Qed.
 
+(* the precedence rule over real numbers (linked with C04): a cell card `FILL=n (twelve numbers)`
+   whose numbers are O and a matrix B with exactly orthonormal, clip-ok rows - the case in which
+   C04_inline_12 shows that the parser returns the numbers themselves - places the filling universe
+   at B (p - O), whatever TRCL the cell carries.  [val] = the number a token stands for; [norm] is
+   assumed to be the token image of C04's model of the FILL parser (parse_fill_tr) and never
+   empty; mk_v = the tuple of the tokens' values as a motion *)
+Theorem C05_precedence_located_linked :
+  forall (val : Z -> Rdefinitions.R) (norm : bool -> list Z -> list Z)
+         (trs : list (Z * list Rdefinitions.R)) (trid0 : Z),
+  (forall star ps l,
+     C04.Model.parse_fill_tr Base.Scalar.RS star (map val ps) trs trid0 = C04.Model.Ok l ->
+     map val (norm star ps) = l) ->
+  (forall star ps, norm star ps <> []) ->
+  forall table mat rho geom imp u univ trid params trcl (cl : cell motion)
+         (s : state motion wfentry) du key p c r (o : C04.Spec.R3) (b : C04.Vec.M3 Rdefinitions.R),
+  (forall k cd, dget k table = Some cd -> cd <> []) ->
+  cell_of_keywords motion (mk_v val) norm table mat rho geom imp u (Some (false, univ, trid, params)) trcl
+    = Ok cl ->
+  map val params = C04.ProofsCompose.tr12 o b ->
+  C04.Spec.rows_orthonormal b -> C04.ProofsMatrix.clip_ok_m b ->
+  dget key (s_cells s) = Some cl ->
+  LocW motion wfentry C04.Spec.R3 m_empty m_inv m_sense s du key p (key :: c :: r) true ->
+  LocW motion wfentry C04.Spec.R3 m_empty m_inv m_sense s du c (C04.Spec.to_aux o b p) (c :: r) true.
+Proof. exact precedence_located_linked. Qed.
+Print Assumptions C05_precedence_located_linked.
+
 (* ===== the FILL loop and inlining from ANY table ================================================
    (fresh counters, empty cache, no provenance; the table need not come from the TRCL loop) *)
 Theorem C05_fill_inline_located :
@@ -630,3 +656,9 @@ Theorem C05_located_through_lattice_linked :
        dget (last ch 0) (s_cells sd) = Some lfl /\ c_mat ncl = c_mat lfl /\ c_rho ncl = c_rho lfl).
 Proof. exact C05.LinkC06.located_through_lattice. Qed.
 Print Assumptions C05_located_through_lattice_linked.
+
+(* non-vacuity of the two lattice theorems: a concrete table (container 1 filled with universe 1 =
+   the lattice cell 5), one element with a translation, a degenerate surface instance that obeys
+   both laws; the chain runs: develop_state returns the element cell 6, the FILL loop the cell 7
+   (statement: C05.LinkC06.ex_lat_runs) *)
+Example C05_example_lattice_linked := C05.LinkC06.ex_lat_runs.
